@@ -57,6 +57,8 @@ M = [
     ("c11-contains-ignores-mask", "C11", "xonsh/environ.py", "        if item in self._d:\n            return self._d[item] is not DELETE_VAR\n        return item in self._vars", "        if item in self._d:\n            return True\n        return item in self._vars"),
     # ---- C13 crash safety
     ("c13-dump-in-place", "C13", "xonsh/history/json.py", "        try:\n            os.replace(tmpname, self.filename)\n        except Exception as err:", "        try:\n            with open(tmpname, encoding=\"utf-8\", newline=\"\\n\") as src, open(self.filename, \"w\", encoding=\"utf-8\", newline=\"\\n\") as dst:\n                dst.write(src.read())\n            os.remove(tmpname)\n        except Exception as err:"),
+    ("c13-sqlite-erasedups-commit-per-group", "C13", "xonsh/history/sqlite.py", "                (total_freq, keep_rowid),\n            )\n\n        conn.commit()", "                (total_freq, keep_rowid),\n            )\n            conn.commit()\n\n        conn.commit()"),
+    ("c13-sqlite-autocommit", "C13", "xonsh/history/sqlite.py", "    conn = sqlite3.connect(str(filename))\n    try:\n        with conn:", "    conn = sqlite3.connect(str(filename), isolation_level=None)\n    try:\n        with conn:"),
     ("c13-failed-write-still-replaces", "C13", "xonsh/history/json.py", "            print(f\"history: failed to write {tmpname!r}: {err}\", file=sys.stderr)\n            return\n", "            print(f\"history: failed to write {tmpname!r}: {err}\", file=sys.stderr)\n"),
     # ---- C09 session conservation (pty layer: terminal ownership)
     ("c09-end-keeps-terminal", "C09", "xonsh/procs/pipelines.py", "        self._end(tee_output=tee_output)\n        self._return_terminal()", "        self._end(tee_output=tee_output)"),
